@@ -46,6 +46,8 @@ Cfg stream_cfg(vf::Src& s) { Cfg c; c.stream = true; c.streamKind = static_cast<
 // mutate bytes: substitution / deletion / insertion / truncation
 std::string mutate(vf::Src& s, const std::string& in, bool& changed) {
 	std::string d = in; changed = false; if (d.empty() || !s.chance(2, 3)) return d;
+	if (d.size() > 40 && s.chance(1, 5)) {   // cut 1..8 bytes behind a buffer boundary of the stream readers (256, or 32 in the small-chunk build): a fixed-size field that straddles the boundary is refilled only partly
+		const size_t b = s.coin() ? 256 : 32; if (d.size() > b + 1) { const size_t m = 1 + s.draw((d.size() - 2) / b); d.resize(std::min(d.size() - 1, b * m + 1 + s.draw(8))); changed = true; return d; } }
 	size_t n = 1 + s.draw(2);
 	for (size_t i = 0; i < n && !d.empty(); i++) { size_t p = s.draw(d.size());
 		switch (s.draw(6)) {
